@@ -42,19 +42,27 @@ def canon(t):
     if h == "field" and t[2] in NAME_MAP and t[1][0] == "var" and t[1][1] == "self":
         return NAME_MAP[t[2]]
     if h == "var":
+        base = str(t[2]).split("#")[0] if len(t) > 2 else None
+        if base is not None and base in _CTX["roles"]:
+            r = _CTX["roles"][base]
+            return r if isinstance(r, tuple) else ("var", r)
         if t[1] in NAME_MAP:
             return NAME_MAP[t[1]]
-        return ("var", t[1])
-    if h == "call" and t[1] in ("BitCount::count_ones", "BitCount::count_zeros") and t[2] == (("var", "bits"),) or (h == "call" and t[1] in ("BitCount::count_ones", "BitCount::count_zeros") and len(t[2]) == 1 and t[2][0][0] == "var" and t[2][0][1] == "bits"):
-        return ("var", "num_ones")
-    if h == "index" and t[1][0] == "var" and t[1][1] == "bits" and t[2][0] == "var" and t[2][1] == "i":
-        return ("var", "word")
+        return ("var", _CTX["ren"].get(t[1], t[1]))
+    def is_bits(x):
+        # the bit vector handed to a constructor: its first parameter (whatever it is called)
+        return x[0] == "var" and len(x) > 2 and _CTX["roles"].get(str(x[2]).split("#")[0]) == "p1"
+    if h == "call" and t[1] in ("BitCount::count_ones", "BitCount::count_zeros") and len(t[2]) == 1 and is_bits(t[2][0]):
+        return ("var", "NUM_ONES")
+    if h == "index" and is_bits(t[1]) and t[2][0] == "var":
+        return ("var", "WORD")
     if h == "call":
         nm = CALL_MAP.get(t[1], t[1])
         args = tuple(canon(a) for a in t[2])
         if nm.endswith("::log2_ones_per_sub32"):
             return ("call", "log2_ones_per_sub32", args[:1])
         nm = re.sub(r"^Select(Zero)?Adapt(Const)?::", "SelectAdapt::", nm)
+        nm = re.sub(r"^SelectZeroSmall::", "SelectSmall::", nm)
         return ("call", nm, args)
     if h == "un" and t[1] == "!" and t[2][0] == "index":
         return canon(t[2])
@@ -63,15 +71,102 @@ def canon(t):
     return tuple(canon(x) if isinstance(x, tuple) else x for x in t)
 
 
+def field_roles(F, b):
+    """binding id -> canonical symbol, for the parameters/locals that a struct literal of the body stores
+    unchanged in a field with a canonical name (`log2_ones_per_inventory: log2_ones_per_inventory`): the
+    role of such a binding is the field it ends up in, whatever it is called and however it was computed."""
+    roles = {}
+    for n in walk(b.body):
+        if n.get("k") == "Struct" and range_of(F, n) is None:
+            for f in n["fields"]:
+                e = f["e"]
+                if e.get("k") == "Path" and e.get("res") == "local" and f["name"] in NAME_MAP:
+                    roles[e["id"]] = NAME_MAP[f["name"]]
+    return roles
+
+
+_CTX = {"roles": {}, "ren": {}}
+_LVAR = re.compile(r"\('var', '([A-Za-z_][A-Za-z0-9_]*)'\)")
+
+
+def local_names(items, fixed):
+    out = set()
+    for it, n in items:
+        for m in _LVAR.finditer(repr(it)):
+            if m.group(1) not in fixed:
+                out.add(m.group(1))
+        tag = it[0]
+        if tag.startswith(("upd:", "set:", "let:")):
+            out.add(tag.split(":")[1])
+    return out
+
+
+def signatures(items, names):
+    """name -> multiset of the items it occurs in, with the name marked and every other local blanked"""
+    from collections import Counter
+    sig = {n: Counter() for n in names}
+    for it, cnt in items:
+        r = repr(it)
+        present = set(m.group(1) for m in _LVAR.finditer(r)) & names
+        tag = it[0]
+        tagname = tag.split(":")[1] if tag.startswith(("upd:", "set:", "let:")) else None
+        if tagname in names:
+            present.add(tagname)
+        for x in present:
+            def sub(m):
+                return "('var', '@')" if m.group(1) == x else ("('var', '_')" if m.group(1) in names else m.group(0))
+            marked = _LVAR.sub(sub, r)
+            if tagname is not None:
+                marked = marked.replace("'%s" % tag, "'%s" % tag.replace(":%s" % tagname, ":@" if tagname == x else ":_"), 1)
+            sig[x][marked] += cnt
+    return sig
+
+
+def unify_locals(ref_items, items, fixed):
+    """A renaming of the locals of `items` onto the locals of `ref_items` (siblings name the same quantity
+    differently): greedy matching on the overlap of their occurrence signatures; identical names win ties."""
+    A = local_names(ref_items, fixed)
+    B = local_names(items, fixed)
+    sa, sb = signatures(ref_items, A), signatures(items, B)
+    pairs = []
+    for b in B:
+        for a in A:
+            ov = sum((sa[a] & sb[b]).values())
+            if ov > 0:
+                pairs.append((ov + (0.5 if a == b else 0), a, b))
+    pairs.sort(key=lambda x: (-x[0], x[1], x[2]))
+    ren, used = {}, set()
+    for sc, a, b in pairs:
+        if b in ren or a in used:
+            continue
+        ren[b] = a
+        used.add(a)
+    # a local left without a partner must not collide with a reference name it is not paired with
+    for b in B:
+        if b not in ren and b in used:
+            ren[b] = b + "'"
+    return {b: a for b, a in ren.items() if a != b}
+
+
 class _Bag(dict):
     def add(self, it):
         self[it] = self.get(it, 0) + 1
 
 
-def sk_items(F, b, opaque):
-    """multiset of skeleton items: (item, count) pairs so that a dropped duplicate store is seen"""
+def sk_items(F, b, opaque, ren=None, param_terms=None):
+    """multiset of skeleton items: (item, count) pairs so that a dropped duplicate store is seen.
+    Parameters appear by position (self, p1, p2, ..), locals by name after the renaming `ren`."""
     bag = _Bag()
     items = bag
+    _CTX["roles"] = param_roles(b)
+    for pos, term in (param_terms or {}).items():
+        # a parameter that carries what a sibling computes itself (e.g. the number of ones)
+        pid = [str(p_["id"]) for p_ in b.params if p_.get("k") == "PBind" and p_["name"] != "self"][pos - 1]
+        _CTX["roles"][pid] = term
+    _CTX["ren"] = dict(ren or {})
+
+    def tagname(nm):
+        return _CTX["ren"].get(nm, nm)
 
     def add(kind, t, W):
         items.add((kind, repr(normalize(canon(W.expand(t))))))
@@ -95,13 +190,19 @@ def sk_items(F, b, opaque):
         elif k in ("Assign", "AssignOp") and n["l"].get("k") != "Path":
             add("store" + n.get("op", "="), W.T.term(n["r"]), W)
         elif k == "AssignOp" and n["l"].get("k") == "Path":
-            add("upd:%s:%s" % (n["l"]["name"], n["op"]), W.T.term(n["r"]), W)
+            add("upd:%s:%s" % (tagname(n["l"]["name"]), n["op"]), W.T.term(n["r"]), W)
         elif k == "Assign" and n["l"].get("k") == "Path" and n["l"].get("res") == "local":
-            add("set:%s" % n["l"]["name"], W.T.term(n["r"]), W)
+            add("set:%s" % tagname(n["l"]["name"]), W.T.term(n["r"]), W)
         elif k == "MethodCall" and n["name"] in ("push", "resize", "saturating_sub", "div_ceil", "min", "max"):
             items.add(("call:" + n["name"], tuple(repr(normalize(canon(W.expand(W.T.term(a))))) for a in n["args"])))
     W = Walker(F, b, on_node=on_node)
-    W.opaque_names = dict(opaque)
+    if opaque == "all-lets":
+        # every immutable local is kept as a named quantity and contributes one item (its definition)
+        W.opaque_all = True
+        W.on_let = lambda p_, term: add("let:%s" % tagname(p_["name"]), term, W)
+    else:
+        W.opaque_names = dict(opaque)
+    W.opaque_ids = field_roles(F, b)
     W.run()
     return set((it, n) if n > 1 and it[0].startswith(("store", "upd", "call:push")) else (it, 1) for it, n in bag.items())
 
@@ -118,14 +219,56 @@ NEW_FNS = [
     r"^rank_sel::select_zero_adapt::SelectZeroAdapt::<B>::_new$",
     r"^rank_sel::select_zero_adapt_const::SelectZeroAdaptConst::<B, std::boxed::Box<\[usize\]>, LOG2_ZEROS_PER_INVENTORY, LOG2_U64_PER_SUBINVENTORY>::new$",
 ]
-OPAQUE = {"log2_u64_per_subinventory": L2, "log2_ones_per_sub16": L16, "ones_per_inventory": pow2(L1), "ones_per_inventory_mask": maskof(L1),
+OPAQUE_OLD = {"log2_u64_per_subinventory": L2, "log2_ones_per_sub16": L16, "ones_per_inventory": pow2(L1), "ones_per_inventory_mask": maskof(L1),
           "ones_per_sub16": pow2(L16), "ones_per_sub16_mask": maskof(L16), "log2_ones_per_inventory": L1}
+OPAQUE = {}
+
+
+FIXED_NAMES = {"self", "p1", "p2", "p3", "p4", "p5", "p6", "x", "_", "@"}
+
+
+def _tuplify(x):
+    return tuple(_tuplify(y) for y in x) if isinstance(x, list) else x
+
+
+def unified_skeletons(F, bodies, opaque, param_terms=None, reference=None):
+    """Skeletons of sibling bodies with the locals of every sibling renamed onto those of the first, and the
+    locals of the first renamed onto the names it had when the table of confirmed differences was written
+    (`reference`: the first sibling's skeleton as recorded then), so that renaming locals -- in one sibling or
+    in all of them -- changes nothing."""
+    pts = param_terms or [None] * len(bodies)
+    refs = [set(_tuplify(r)) for r in reference] if reference and len(reference) == len(bodies) else [None] * len(bodies)
+
+    def own(b, pt, ref):
+        # the sibling with its locals renamed to the names they had in its recorded skeleton
+        raw = sk_items(F, b, opaque, None, pt)
+        ren = unify_locals(ref, raw, FIXED_NAMES) if ref else {}
+        return (sk_items(F, b, opaque, ren, pt), ren) if ren else (raw, {})
+    first, _ = own(bodies[0], pts[0], refs[0])
+    out = [first]
+    for b, pt, ref in zip(bodies[1:], pts[1:], refs[1:]):
+        cur, ren0 = own(b, pt, ref)
+        ren = unify_locals(first, cur, FIXED_NAMES)
+        if ren:
+            # compose: source name -> own reference name -> first sibling's name
+            comp = {src: ren.get(dst, dst) for src, dst in ren0.items()}
+            for src, dst in ren.items():
+                if src not in ren0.values():
+                    comp.setdefault(src, dst)
+            cur = sk_items(F, b, opaque, comp, pt)
+        out.append(cur)
+    return out
+
+
+# SelectAdapt::_new / SelectZeroAdapt::_new receive the number of ones (zeros) as their second parameter; the
+# const variants compute it from the bit vector
+NEW_PARAM_TERMS = [{2: ("var", "NUM_ONES")}, None, {2: ("var", "NUM_ONES")}, None]
 
 
 def compare_siblings(ctx, rr, paths, what, allowed):
     F = ctx.F()
     bodies = [F.one(p) for p in paths]
-    sks = [sk_items(F, b, OPAQUE) for b in bodies]
+    sks = unified_skeletons(F, bodies, OPAQUE, NEW_PARAM_TERMS if what == "constructor" else None, load_table("select_siblings.json").get("_reference", {}).get(what))
     names = [strip_generics(b.key).split("::")[-2].replace("<", "").split(" as ")[0].split("::")[-1] if " as " in b.key else strip_generics(b.key).split("::")[-2] for b in bodies]
     names = ["SelectAdapt", "SelectAdaptConst", "SelectZeroAdapt", "SelectZeroAdaptConst"]
     union = set().union(*sks)
@@ -184,22 +327,19 @@ def r02_4(ctx, rr):
             if base == sub:
                 reads.append((n, W.expand(W.T.term(n["args"][0])), W))
     W = Walker(F, b, on_node=on_node)
-    # capture the value of `subinv_pos` when it is bound
-    orig_bind = W.bind_pat
-
-    def bind(p, term, K, mutable_ok=True):
-        if p.get("k") == "PBind" and p.get("name") == "subinv_pos" and term is not None:
-            state["pos"] = term
-        return orig_bind(p, term, K)
-    W.bind_pat = bind
     W.run()
-    if state["pos"] is None:
-        raise AnchorMissing("Select9::select_unchecked: no `subinv_pos` binding")
-    pos = W.expand(state["pos"])
-    # subinv_pos == (inventory[left] / 64) / 4
+
+    def starts(t):
+        return [x for x in subterms(t) if x[0] == "op" and x[1] == "/" and x[3] == ("int", 4) and x[2][0] == "op" and x[2][1] == "/" and x[2][3] == ("int", 64)]
+    # the subinventory start of the entry: (inventory[i] / 64) / 4, the sub-term shared by the reads
+    from collections import Counter
+    cands = Counter(x for _, t, _ in reads for x in set(starts(t)))
     rr.instances += 1
-    ok = pos[0] == "op" and pos[1] == "/" and pos[3] == ("int", 4) and pos[2][0] == "op" and pos[2][1] == "/" and pos[2][3] == ("int", 64)
-    rr.check(ok, "Select9::select_unchecked:subinv_pos", "subinv_pos must be (inventory[i] / 64) / 4, the writer's subinv_start; found %s" % tshow(pos)[:160], b.span)
+    pos = cands.most_common(1)[0][0] if cands else None
+    ok = pos is not None and mentions(pos, lambda x: x[0] in ("index", "call") and mentions(x, lambda y: y == ("field", slf, "inventory")))
+    rr.check(ok, "Select9::select_unchecked:subinv_pos", "the reads of the subinventory must start at (inventory[i] / 64) / 4, the writer's subinv_start; found %s" % (tshow(pos)[:160] if pos else None), b.span)
+    if pos is None:
+        pos = ("unk", "no subinventory start")
     if len(reads) < 6:
         raise AnchorMissing("Select9::select_unchecked: expected at least 6 reads of the subinventory, found %d" % len(reads))
     for n, t, Wk in reads:
@@ -212,11 +352,20 @@ def r02_4(ctx, rr):
     # writer: subinv_start == (inventory[idx] / 64) / u64_per_subinventory (= 4) and all writes go through subinv_start
     nb = F.one(r"^rank_sel::select9::Select9::<rank_sel::rank9::Rank9<B, C>>::new$")
     writes = []
+    # the local that becomes the `subinventory` field of the result
+    sub_ids = set()
+    for n in walk(nb.body):
+        if n.get("k") == "Struct" and range_of(F, n) is None:
+            for f in n["fields"]:
+                if f["name"] == "subinventory":
+                    sub_ids |= set(x.get("id") for x in walk(f["e"]) if x.get("k") == "Path" and x.get("res") == "local")
+    if not sub_ids:
+        raise AnchorMissing("Select9::new: no struct literal with a subinventory field built from a local")
 
     def on_new(Wk, n, K):
         if Wk.debug_depth:
             return
-        if n.get("k") == "Index" and show(F, n["e"]) == "subinventory":
+        if n.get("k") == "Index" and n["e"].get("k") == "Path" and n["e"].get("id") in sub_ids:
             writes.append((n, Wk.expand(Wk.T.term(n["i"]))))
     Walker(F, nb, on_node=on_new).run()
     if len(writes) < 3:
@@ -268,7 +417,7 @@ def r02_8(ctx, rr):
 
     def arms_of(b):
         for n in walk(b.body):
-            if n.get("k") == "Match" and n.get("src") == "Normal" and show(F, n["e"]) == "span":
+            if n.get("k") == "Match" and n.get("src") == "Normal" and any(a["pat"].get("k") == "PRange" for a in n["arms"]):
                 out = []
                 for a in n["arms"]:
                     p = a["pat"]
@@ -282,7 +431,7 @@ def r02_8(ctx, rr):
         return None
     A, B = arms_of(nb), arms_of(sb)
     if not A or not B:
-        raise AnchorMissing("Select9: `match span` not found in new/select_unchecked")
+        raise AnchorMissing("Select9: no match on integer ranges (the span classes) found in new/select_unchecked")
     ra = [(x[0], x[1]) for x in A]
     rb = [(x[0], x[1]) for x in B]
     rr.instances += 1
@@ -310,7 +459,7 @@ SIBLING_GROUPS = [
     {"name": "select-small", "props": ["C02"], "labels": ["SelectSmall", "SelectZeroSmall"],
      "fns": [r"^<rank_sel::select_small::SelectSmall<2, 9, C> as traits::rank_sel::SelectUnchecked>::select_unchecked$",
              r"^<rank_sel::select_zero_small::SelectZeroSmall<2, 9, C> as traits::rank_sel::SelectZeroUnchecked>::select_zero_unchecked$"],
-     "opaque": {"upper_rank": ("sym", "UR"), "local_rank": ("sym", "LR"), "upper_block_idx": ("sym", "UB"), "upper_rank_ones": ("sym", "URO")}},
+     "opaque": "all-lets"},
 ]
 
 
@@ -318,7 +467,7 @@ def compare_group(ctx, rr, g, allowed):
     F = ctx.F()
     bodies = [F.one(p) for p in g["fns"]]
     names = g["labels"]
-    sks = [sk_items(F, b, g["opaque"]) for b in bodies]
+    sks = unified_skeletons(F, bodies, g["opaque"], None, load_table("sibling_groups.json").get("_reference", {}).get(g["name"]))
     union = set().union(*sks)
     common = set.intersection(*sks)
     rr.instances += len(bodies)
